@@ -339,7 +339,28 @@ def extent_rules(chk, cr, q, ev, resolver, helper=False):
                     desc = f"lower from {lo_k}, upper from {hi_k}"
                 chk.ob("R03.2", CR, "Crystal." + q, "slab is asked for (lower = floor-derived, upper = ceil-derived) cells", ok,
                        node=e.node, fingerprint="slab-bounds", found=desc)
+                if it and len(it) == 2:
+                    lo_off, hi_off = bound_offsets(it[0]), bound_offsets(it[1])
+                    chk.ob("R03.2", CR, "Crystal." + q, "the rounded bounds are not shrunk before they are handed to slab (lower = floor - k, upper = ceil + k, k >= 0)",
+                           all(c is not None and c <= 0 for c in lo_off) and all(c is not None and c >= 0 for c in hi_off), node=e.node,
+                           fingerprint="slab-bounds-margin", found=f"lower offsets {lo_off}, upper offsets {hi_off}")
     if chk.want("R03.2"):
+        # cells enumerated directly with arange(lower, upper): the upper end is exclusive, so it has to be at least ceil + 1
+        for e in ev.events:
+            if e.kind != "call" or call_name(e.value.as_atom() or ()) != "numpy.arange" or len(e.extra.get("args", ())) != 2:
+                continue
+            lo, hi = e.extra["args"]
+            kinds = (bound_kind(lo, ev), bound_kind(hi, ev))
+            if not (kinds[0] in ("floor", "ceil") and kinds[1] in ("floor", "ceil")):
+                continue
+            if kinds != ("floor", "ceil"):
+                chk.ob("R03.2", CR, "Crystal." + q, "arange runs from the lower (floor-derived) to the upper (ceil-derived) cell", False, node=e.node,
+                       fingerprint=f"arange-order:{str(lo)[:30]}", expected="arange(lower, upper)", found=f"arange({kinds[0]}-derived, {kinds[1]}-derived)")
+                continue
+            lo_off, hi_off = bound_offsets(lo), bound_offsets(hi)
+            chk.ob("R03.2", CR, "Crystal." + q, "arange(lower, upper) covers every cell [h, h + 1) that meets [p - e, p + e]: lower = floor - k, upper = ceil + k "
+                   "with k >= 0 (cells floor(p - e) .. ceil(p + e) - 1)", all(c is not None and c <= 0 for c in lo_off) and all(c is not None and c >= 0 for c in hi_off),
+                   node=e.node, fingerprint=f"arange-margin:{str(lo)[:30]}", found=f"lower offsets {lo_off}, upper offsets {hi_off}")
         # the cell range is computed around the very points the balls are centred on: a centre listed outside the cell (x = -0.2, 3.4)
         # wrapped for the range but not for the query looks for neighbours where no cells were laid out
         def strip_idx(t):
@@ -402,6 +423,40 @@ def extent_rules(chk, cr, q, ev, resolver, helper=False):
                     r = e.extra["args"][1]
                     chk.ob("R03.3", CR, "Crystal." + q, "the ball query uses the caller's radius unchanged",
                            r.as_atom() is not None and r.as_atom()[0] == "name", node=e.node, fingerprint="ball-radius", found=str(r))
+
+
+def bound_offsets(term: P):
+    """constants added to the rounded bound(s) in a term: for each additive part  <atom built on ceil / floor / a loop accumulator> + c
+    the number c (a list, one per tuple item; None where the term is not of that shape)."""
+    items = seq_items(term)
+    out = []
+    for t in (items if items is not None else [term]):
+        c = None
+        if t.is_poly():
+            cores = [at for mono in t.n for at, _ in mono if "ceil(" in P.atom(at).key() or "floor(" in P.atom(at).key() or P.atom(at).key().startswith("(after ")
+                     or "(after " in P.atom(at).key()]
+            if len(cores) == 1 and (t - P.atom(cores[0])).const_value() is not None:
+                c = (t - P.atom(cores[0])).const_value()
+                core = cores[0]
+                # (X + c)[k] / (X + c).astype(int): the constant sits inside the indexed / converted term
+                while core is not None:
+                    inner = None
+                    if core[0] == "sub" and len(core[2]) == 1 and core[2][0].const_value() is not None:
+                        inner = core[1]
+                    elif core[0] == "call" and call_name(core) == ".astype" and core[1].as_atom():
+                        inner = core[1].as_atom()[1]
+                    if inner is None or inner.as_atom() is not None and inner.as_atom()[0] not in ("sub", "call"):
+                        break
+                    if inner.as_atom() is None:
+                        more = bound_offsets(inner)
+                        if len(more) == 1 and more[0] is not None:
+                            c += more[0]
+                        else:
+                            c = None
+                        break
+                    core = inner.as_atom()
+        out.append(c)
+    return out
 
 
 def bound_kind(term: P, ev):
@@ -612,7 +667,35 @@ def find_uc_atoms(ev):
     return P.name("uc_atoms")
 
 
+def shell_inclusion(chk, cr, evs):
+    """molecular_shell: a translated molecule is a neighbour exactly when its distance to the central molecule is below the radius AND above
+    the small threshold that takes the central molecule itself out (both conditions, on the molecule that is appended)."""
+    q = "molecular_shell"
+    ev = evs.get(q)
+    if ev is None:
+        return
+    radius = ev.param_names[2] if len(ev.param_names) > 2 else "radius"
+    app = [e for e in ev.events if e.kind == "call" and e.target is not None and e.target.key().endswith(".append") and e.loops and e.extra.get("args")]
+    chk.need(app, f"Crystal.{q}: neighbour append not found")
+    for e in app:
+        mol = e.extra["args"][0].key()
+        below = above = False
+        for c, pol in e.guards:
+            ca = c.as_atom()
+            if not (ca and ca[0] in ("lt", "le") and pol):
+                continue
+            l, r = ca[1], ca[2]
+            if r.key() == radius and ".distance_to(" in l.key() and mol in l.key():
+                below = True
+            if l.const_value() is not None and 0 < l.const_value() <= 0.1 and ".distance_to(" in r.key() and mol in r.key():
+                above = True
+        chk.ob("R03.5", CR, "Crystal." + q, "a translated molecule is kept exactly when its distance to the central molecule is below the radius and above "
+               "the self-exclusion threshold (both conditions hold on the way to the append)", below and above, node=e.node, fingerprint="shell-inclusion",
+               expected="dist < radius and dist > 1e-2", found=[f"{'' if p else 'not '}{str(c)[:40]}...{str(c)[-30:]}" for c, p in e.guards][-2:])
+
+
 def exclusion_rules(chk, cr, evs):
+    shell_inclusion(chk, cr, evs)
     # atomic_surroundings: keep = where(d > eps) and every neighbour array is indexed by keep
     q = "atomic_surroundings"
     ev = evs[q]
@@ -652,6 +735,23 @@ def exclusion_rules(chk, cr, evs):
                 src[e.name] = a[2][0].key()
     chk.ob("R03.5", CR, "Crystal." + q, "positions, elements and parent indices are gathered with one ball-query index",
            len(src) == 3 and len(set(src.values())) == 1 and "query_ball_point" in list(src.values())[0], found=list(src))
+    # the distance that decides what is kept, and that is reported, is |position - centre| of those very positions and of the point the
+    # ball was queried around (row-wise norm): a sum instead of the difference, or another axis, reports wrong distances and keeps the centre
+    balls = [e for e in ev.events if e.kind == "call" and call_name(e.value.as_atom() or ()) == ".query_ball_point" and e.loops and e.extra.get("args")]
+    posv = [e.value for e in ev.events if e.kind == "assign" and e.name == "positions" and e.loops]
+    okd = False
+    dterm = cmp_[0][2] if cmp_ else None
+    if balls and posv and dterm is not None:
+        na = dterm.as_atom()
+        kw = dict(na[3]) if na and len(na) > 3 and na[3] else {}
+        okd = bool(na and call_name(na) == "numpy.linalg.norm" and len(na[2]) == 1 and kw.get("axis") is not None and kw["axis"] == P.const(1)
+                   and na[2][0] == posv[-1] - balls[-1].extra["args"][0])
+    chk.ob("R03.5", CR, "Crystal." + q, "the distance compared with the threshold is the row-wise norm of (gathered positions - the centre the ball was "
+           "queried around)", okd, fingerprint="distance-formula", expected="numpy.linalg.norm(positions - centre, axis=1)", found=str(dterm)[:160])
+    dist_item = dict((k, v) for k, _, v in items).get("distance") if items else None
+    chk.ob("R03.5", CR, "Crystal." + q, "the reported distances are those same distances", dist_item is not None and dterm is not None
+           and dist_item.as_atom() and dist_item.as_atom()[0] == "sub" and dist_item.as_atom()[1].key() == dterm.key(), fingerprint="distance-reported",
+           found=str(dist_item)[:120])
     # molecule-type environments: keep[idxs] = True ; nearest within threshold -> keep[this] = False ; returned arrays [keep]
     for q in ("atom_group_surroundings", "molecule_environment", "functional_group_surroundings"):
         ev = evs[q]
